@@ -98,6 +98,9 @@ func compileKind(wk *wkind) *compiled {
 	ps := make([]interface{}, len(wk.probes))
 	for i, p := range wk.probes {
 		ps[i] = p
+		if n, ok := parseIdx(p); ok {
+			ps[i] = n // asked through the integer-keyed paths (and again as a string, see F)
+		}
 	}
 	c.probes = c.rt.NewArray(ps...)
 	return c
@@ -425,9 +428,11 @@ func runHistory(c *compiled, wk *wkind, path []int, df defects, full bool) (out 
 	}
 	h := c.rt.NewArray()
 
+	threwOnWrapper := ""
 	for i, oi := range path {
 		o := wk.ops[oi]
 		out.steps = i + 1
+		threwOnWrapper = ""
 		if o.goFn != nil {
 			o.goFn(implHost)
 			o.goFn(twinHost)
@@ -452,12 +457,16 @@ func runHistory(c *compiled, wk *wkind, path []int, df defects, full bool) (out 
 			case 0, 1:
 				m.capHint = capOfExport(h.Get(fmt.Sprint(o.tgt)))
 			}
+			m.touched = false
 			want, skipped, why := runModelOp(m, o)
 			if skipped {
 				out.skipped, out.skipWhy = true, why
 				return
 			}
 			out.lastRes = want
+			if want == "!throw" && tv.k == mRef && m.touched {
+				threwOnWrapper = o.name
+			}
 			if cycleThroughArray(implHost) || cycleThroughArray(twinHost) || m.handleCycle() {
 				out.skipped, out.skipWhy = true, "cyclic value through a slice"
 				return
@@ -475,6 +484,12 @@ func runHistory(c *compiled, wk *wkind, path []int, df defects, full bool) (out 
 	// the state key is taken before the final observation, which is not part of any continued history
 	// (reading through the wrappers registers element references, in the model as in the implementation)
 	key := m.stateKey(twinHost)
+	if threwOnWrapper != "" {
+		// A mutation attempt that threw must leave everything unchanged - also the hidden wrapper bookkeeping,
+		// which the model state cannot see. Such a state is therefore kept apart from the state before the
+		// attempt and gets expanded itself.
+		key += "#threw:" + threwOnWrapper
+	}
 	// end of history: everything script can see, and Export identity
 	var want string
 	// JSON.stringify of a cyclic Go value recurses without bound in goja (listed finding, fatal): it is
